@@ -41,6 +41,9 @@ type frame struct {
 type pframe struct {
 	handler Value // xpcall message handler (nil for pcall / coroutine boundary)
 	isX     bool
+	// inHandler: the message handler of this xpcall is running (an error
+	// raised now is an error inside the message handler)
+	inHandler bool
 }
 
 type thread struct {
@@ -208,7 +211,7 @@ func (in *Interp) raise(v Value) {
 		// the handler itself runs unprotected by itself: an error inside it is
 		// "error in error handling" territory, left open here
 		saved := t.pstack[n-1]
-		t.pstack[n-1] = pframe{isX: true, handler: nil}
+		t.pstack[n-1] = pframe{isX: true, handler: nil, inHandler: true}
 		func() {
 			defer func() {
 				if r := recover(); r != nil {
@@ -232,6 +235,12 @@ func (in *Interp) raise(v Value) {
 		t.pstack[n-1] = saved
 		t.pstack[n-1].handler = nil // handled once
 		defer func() { t.pstack[n-1] = saved }()
+	} else if n > 0 && t.pstack[n-1].inHandler && in.Ext.HandlerErrAny {
+		// an error inside a message handler: the implementation may re-enter
+		// the handler, give up with a message of its own, ...: the error value
+		// that travels from here (and that __close handlers on the way see) is
+		// not determined
+		v = &Any{}
 	}
 	panic(LuaError{V: v})
 }
